@@ -10,6 +10,9 @@ import GormModel.Lemmas.StmtCacheBroadcast
 import GormModel.Lemmas.StmtCacheTransp
 import GormModel.Gen.StmtCacheFacts
 import GormModel.Gen.LockSections
+import GormModel.Model.StmtCacheStore
+import GormModel.Lemmas.StmtCacheStore
+import GormModel.Gen.StmtCacheStoreFacts
 namespace Gorm
 open SC
 
@@ -210,6 +213,150 @@ theorem C14_transparent_partial (ops : List Op) (nV : Nat) (cfg : Cfg) (sched : 
       · exact absurd (hBC h hh.1 c) hnb
       · rw [hh.2] at c; exact absurd (hRC e h7.1 c) hnr
   simp [act, ht, tstep, hop, hpc, stepUse, hcl]
+
+
+/-! ### ONE cache per `gorm.Open`: every way of enabling prepared-statement mode ends up on the same cache object -/
+
+open SCS in
+/-- CREATION SITES (regenerated from gorm.go on every run).  `NewPreparedStmtDB(` is called at exactly two places, `Open`
+    and `DB.Session`; at both the new cache is bound to a variable and that variable is stored in `cacheStore` under
+    `preparedStmtDBKey`; the one in `Open` is what `db.ConnPool` becomes; the one in `Session` is reached only after a
+    failed `cacheStore.Load(preparedStmtDBKey)` whose success branch reuses the loaded `*PreparedStmtDB`; the structs
+    `Session` builds take `Mux`/`Stmts` (resp. `PreparedStmtDB`) from that variable, and `BeginTx` binds the transaction
+    to its receiver.  Hence the configuration of the current tree is the healthy one. -/
+theorem C14_cache_creation_sites :
+    Gen.cacheSites.map (·.fn) = ["Open", "DB.Session"] ∧
+    (Gen.cacheSites.all fun s => s.bound != "" && s.stored && s.storeKey == "preparedStmtDBKey" &&
+      (s.poolAssigned != "" || (s.afterFailedLoad && s.loadKey == "preparedStmtDBKey"))) = true ∧
+    genSCfg = good := by
+  decide
+
+open SCS in
+/-- ONE CACHE.  For `Open` with or without `Config.PrepareStmt` and EVERY sequence of derivations — `Session` with or
+    without `PrepareStmt` on any handle (plain, prepared, inside a transaction; nested), `Begin`/`Transaction` on any
+    handle, `Reset`/`Close` through any handle — : `NewPreparedStmtDB` ran at most once, every `PreparedStmtDB` struct
+    that exists holds the `Mux` of cache object 0, the cache is registered in `cacheStore` as soon as it exists, and
+    every handle works with cache object 0 or with none. -/
+theorem C14_one_cache (prepare : Bool) (seq : List DOp) :
+    let w := runD good prepare seq
+    OneCache w ∧ ∀ p ∈ w.handles, ∀ c, cacheOfPool w p = some c → c = 0 := by
+  intro w
+  have hI := inv_run prepare seq
+  exact ⟨oneCache_of_inv w hI, fun p hp c hc => cacheOf_zero w hI p hp c hc⟩
+
+open SCS in
+/-- … and this is what the CURRENT source tree does (configuration computed from the regenerated facts) -/
+theorem C14_one_cache_current_tree (prepare : Bool) (seq : List DOp) :
+    let w := runD genSCfg prepare seq
+    OneCache w ∧ ∀ p ∈ w.handles, ∀ c, cacheOfPool w p = some c → c = 0 := by
+  rw [C14_cache_creation_sites.2.2]
+  exact C14_one_cache prepare seq
+
+open SCS in
+/-- non-vacuity: a PrepareStmt root, a prepared session on it, a transaction from that session, a prepared session
+    inside a plain transaction of a `Session{NewDB}` handle …: five prepared handles, one cache -/
+example : (let w := runD good true [.session 0 true, .begin 1, .session 0 false, .session 3 true, .session 2 true]
+    w.nC = 1 ∧ w.handles.length = 6 ∧ w.handles.all (fun p => cacheOfPool w p == some 0) = true) := by decide
+
+open SCS in
+example : (let w := runD good false [.begin 0, .session 1 true, .session 0 true, .session 2 true, .begin 3]
+    w.nC = 1 ∧ (w.handles.map (cacheOfPool w)) = [none, none, some 0, some 0, some 0, some 0]) := by decide
+
+open SCS in
+/-- ONE GENERATION.  Without `Reset`/`Close` every prepared handle derived from one `Open`, however it was derived,
+    points to map object 0: the structs are exactly the `views` of the cache LTS in its initial state
+    (`SC.init ops nV cfg` puts every view on map object 0), so the LTS theorems above (at most once per text, failure
+    broadcast, leak freedom, deadlock freedom) speak about ALL handles of the database together. -/
+theorem C14_one_generation_shared (prepare : Bool) (seq : List DOp) (h : noRC seq = true) :
+    let w := runD good prepare seq
+    ∀ p ∈ w.handles, ∀ s, structOf p = some s →
+      mapOfPool w p = some 0 ∧ ∀ ops nV cfg, mapOfPool w p = (SC.init ops nV cfg).views s := by
+  intro w p hp s hs
+  have hI := inv2_run prepare seq h
+  exact ⟨mapOf_zero w hI p hp s hs, fun _ _ _ => mapOf_zero w hI p hp s hs⟩
+
+open SCS in
+/-- CLOSED FOR EVERYBODY.  After ANY derivation history on a database opened with `Config.PrepareStmt`, `Close()` on the
+    database's cache (handle 0) leaves the root with a nil map, and a `Session(PrepareStmt)` obtained afterwards from ANY
+    existing handle — root, older session, transaction — is created (it exists and is prepared) with a nil map too … -/
+theorem C14_session_after_close_invalid (seq : List DOp) (h : Nat) :
+    let w := runD good true (seq ++ [.close 0])
+    h < w.handles.length →
+    mapOfPool w (.pdb 0) = none ∧
+    ∃ p, (stepD w (.session h true)).handles = w.handles ++ [p] ∧ (structOf p).isSome = true ∧
+         mapOfPool (stepD w (.session h true)) p = none := by
+  intro w hh
+  have hw : w = stepD (runD good true seq) (.close 0) := runD_snoc _ _ _ _
+  rw [hw] at hh ⊢
+  exact session_after_close _ (inv3_run seq) h hh
+
+/-- … and a struct with a nil map answers `ErrInvalidDB` without touching the pool: in ANY state of the cache LTS, an
+    `Exec/Query` (in or outside a transaction) through a view whose map is nil takes the two lock sections of `prepare`
+    and returns `invalidDB` — no entry is published, no `PrepareContext` is issued. -/
+theorem C14_nil_map_invalid (s : St) (t v : Nat) (q : Text) (tx : Bool) (a : Ans) (ht : t < s.nT)
+    (hop : (s.threads t).op = .use v q tx) (hpc : (s.threads t).pc = .init) (hv : s.views v = none) :
+    ∃ s1 s2, act s (.thr t a) = some s1 ∧ act s1 (.thr t a) = some s2 ∧ result s2 t = some .invalidDB ∧
+      s2.log = s.log ∧ s2.nE = s.nE := by
+  have h1 : act s (.thr t a) = some (setPc s t .missed) := by
+    simp [act, ht, tstep, hop, hpc, stepUse, hv]
+  refine ⟨setPc s t .missed, finish (setPc s t .missed) t .invalidDB, h1, ?_, ?_, ?_, ?_⟩
+  · simp [act, ht, tstep, setPc, hop, stepUse, hv]
+  · cases tx <;> simp [result, finish, setPc, hop]
+  · cases tx <;> simp [finish, setPc, hop]
+  · cases tx <;> simp [finish, setPc, hop]
+
+open SCS in
+/-- WHAT EACH COOPERATING SITE IS NEEDED FOR (kernel-checked derivations with TWO cache objects when one is missing):
+    `Open` not registering its cache + one prepared session; `Session` not looking the cache up, or not registering the
+    one it creates + two prepared sessions on a plain root; `Session` building its struct from something else than the
+    looked-up cache; `BeginTx` not binding the transaction to the struct it was begun on.  With `Open` not registering,
+    a prepared session obtained after `Close()` on the database's cache still has a live map. -/
+theorem C14_one_cache_counterexample :
+    (let w := runD { openStores := false } true [.session 0 true]
+     w.nC = 2 ∧ w.handles.map (cacheOfPool w) = [some 0, some 1]) ∧
+    (let w := runD { sessLoads := false } true [.session 0 true]
+     w.nC = 2 ∧ w.handles.map (cacheOfPool w) = [some 0, some 1]) ∧
+    (let w := runD { sessStores := false } false [.session 0 true, .session 0 true]
+     w.nC = 2 ∧ w.handles.map (cacheOfPool w) = [none, some 0, some 1]) ∧
+    (let w := runD { sessShares := false } true [.session 0 true]
+     w.nC = 2 ∧ w.handles.map (cacheOfPool w) = [some 0, some 1]) ∧
+    (let w := runD { txBinds := false } true [.begin 0]
+     w.nC = 2 ∧ w.handles.map (cacheOfPool w) = [some 0, some 1]) ∧
+    (let w := runD { openStores := false } true [.close 0, .session 0 true]
+     w.handles.map (mapOfPool w) = [none, some 1]) := by
+  decide
+
+
+open SCS in
+/-- F14d witness (kernel-checked): two goroutines call `Session(&Session{PrepareStmt: true})` on a database opened WITHOUT
+    `Config.PrepareStmt` before any cache is registered; both `Load`s miss, both create and `Store`: two cache objects,
+    the two handles work with different ones (the second `Store` overwrites the first). -/
+theorem C14_first_session_race_counterexample :
+    (let s := crun {} [.load 0, .load 1, .build 0, .build 1]
+     s.nC = 2 ∧ s.got 0 = some 0 ∧ s.got 1 = some 1 ∧ s.store = some 1) := by
+  decide
+
+open SCS in
+/-- ONE CACHE under concurrent session creation, outside the F14d pattern: once a cache is registered (the database was
+    opened with `Config.PrepareStmt`, or a first prepared session has been obtained), any number of goroutines calling
+    `Session(PrepareStmt)` afterwards, in ANY interleaving of their `Load` / create-and-`Store` steps, all get that
+    cache and no further cache object is allocated. -/
+theorem C14_first_session_partial (c n : Nat) (s0 : CState) (sched : List CAct)
+    (hstore : s0.store = some c) (hn : s0.nC = n) (hfresh : ∀ g, s0.loaded g = none ∧ s0.got g = none) :
+    let s := crun s0 sched
+    s.nC = n ∧ s.store = some c ∧ ∀ g c', s.got g = some c' → c' = c := by
+  intro s
+  have hI : CInv c n s := crun_inv c n sched s0 ⟨hstore, hn, fun g => Or.inl (hfresh g).1, fun g => Or.inl (hfresh g).2⟩
+  refine ⟨hI.nC, hI.store, fun g c' hg => ?_⟩
+  rcases hI.got g with h | h
+  · rw [h] at hg; cases hg
+  · rw [h] at hg; cases hg; rfl
+
+open SCS in
+/-- non-vacuity: after one completed prepared session three concurrent ones share its cache -/
+example : (let s0 := crun {} [.load 9, .build 9]
+           let s := crun { store := s0.store, nC := s0.nC } [.load 0, .load 1, .build 1, .load 2, .build 0, .build 2]
+           s.nC = 1 ∧ s.got 0 = some 0 ∧ s.got 1 = some 0 ∧ s.got 2 = some 0) := by decide
 
 /-! ### findings: concrete schedules on which the full statement fails (kernel-checked) -/
 
